@@ -44,6 +44,9 @@ FIELD_ROLES = {
     ("ObjStringIter", "iterable"): {"elem": "RIterable"},
     ("ObjUpvalue", "data"): {"variant:Closed": "RClosedValue", "variant:Open": "ROpenSlot"},
     ("ObjUpvalue", "next"): {"elem": "RNext"},
+    # while the state is Open(raw ptr), `owner` is the fiber whose stack the raw pointer points into (set by
+    # ObjUpvalue::new_in_fiber in vm.rs capture_upvalue, cleared by close()): the traced form of role ROpenSlot
+    ("ObjUpvalue", "owner"): {"elem": "ROpenSlot"},
     ("ObjFunction", "chunk"): {"elem": "RChunk"},
     ("ObjFunction", "name"): {"elem": "RName"},
     ("ObjFunction", "module_path"): {"elem": "RModulePath"},
@@ -292,7 +295,8 @@ class Shape(Exception):
 def parse_body(toks, lo, hi):
     """returns a list of statements:
          ("field", F, op)                      self.F.op();  |  if let Some(x) = self.F[.as_ref()] { x.op(); }
-         ("match", F, {Variant: op|None})      match self.F { E::V(v) => v.op(), E::W(_) => {} }
+         ("match", F, {Variant: op|None|("block", stmts)})
+                                               match self.F { E::V(v) => v.op(), E::W(_) => {}, E::U(_) => { stmts } }
          ("selfmatch", {Variant: op}, has_wildcard)
          ("forward", op)                       self.borrow().op(); / self.gc_box().op();
          ("loop", what, {var_role: op})        for … in self[.values()/.keys()/…] { v.op(); }
@@ -394,9 +398,15 @@ def parse_body(toks, lo, hi):
                 elif T[q] == "{" and T[q + 1] == var and T[q + 2] == "." and T[q + 4:q + 8] == ["(", ")", ";", "}"]:
                     arms[variant] = opname(T[q + 3])
                     q += 8
+                elif T[q] == "{":
+                    # a block of ordinary statements on OTHER fields of self, executed only in this variant
+                    # (ObjUpvalue: `Open(_) => { if let Some(owner) = self.owner.as_ref() { owner.mark(); } }`)
+                    bclose = match_group(toks, lo + q) - lo
+                    arms[variant] = ("block", parse_body(toks, lo + q + 1, lo + bclose))
+                    q = bclose + 1
                 else:
                     raise Shape("match arm body")
-                if var == "_" and arms[variant] is not None:
+                if var == "_" and arms[variant] is not None and not isinstance(arms[variant], tuple):
                     raise Shape("match arm body")
                 if q < close and T[q] == ",":
                     q += 1
@@ -673,7 +683,14 @@ def extract(repo):
                     ehead, _ = resolve(ftypes[s[1]])
                     en = dict(src.enums.get(ehead, []))
                     for vn, op in s[2].items():
-                        if op and ("variant:" + vn) in spec and en.get(vn):
+                        if isinstance(op, tuple):
+                            for s2 in op[1]:
+                                if s2[0] == "field" and s2[1] in ftypes:
+                                    field_roles(struct, s2[1], ftypes[s2[1]], s2[2], traced[fn], None)
+                                else:
+                                    unknown.append("impl GcManaged for %s::%s: unexpected statement inside the arm for %s" % (struct, fn, vn))
+                                    good = False
+                        elif op and ("variant:" + vn) in spec and en.get(vn):
                             bop = leaf_op(en[vn], op)
                             if bop:
                                 traced[fn].append((spec["variant:" + vn], bop))
